@@ -25,7 +25,11 @@ RULE = (
     "the secondary block), primary variables as atomic variables / names / md-variables, in random order. On a FRESH "
     "EquationSystem, assemble_schur_complement_system + numpy solve + expand_schur_complement_solution is run twice "
     "(each time with the default inverter or a dense-inverse inverter; the second default call re-uses the cached "
-    "permutation for the same split) and compared with numpy.linalg.solve of the full forward-mode-mirror system: "
+    "permutation for the same split) and compared with numpy.linalg.solve of the full forward-mode-mirror system; every "
+    "assembled Schur system is then expanded 1-3 more times (the same reduced solution again, or scale*x_p + a seeded "
+    "perturbation) and each expansion is compared with [x_p, A_ss^-1 (b_s - A_sp x_p)] computed from the mirror system; "
+    "the returned reduced system must be unchanged by expansions (and the second assembly goes through the same "
+    "checks). Solution tolerance: "
     "max|x - x_full| <= tol*max|x_full| + 1e-12 with tol = max(1e-8, 1e-13*(cond(A) + cond(A_ss)*cond(S))). Cases with "
     "cond(A), cond(A_ss) or cond(S) > 1e6 (or non-finite coupling trees) are discarded and counted. Non-trivial = "
     ">= 2 secondary blocks of size >= 2 not in place, or a grid-restricted primary equation; distinct = hash of spec."
@@ -49,7 +53,8 @@ ASSUMPTIONS = [
 ]
 REQUIRED = {"solved": 0.85, "inv-default": 0.5, "inv-dense": 0.3, "default-cached-reuse": 0.15, "restricted-primary-equation": 0.25,
             "peq-dict": 0.3, "peq-list": 0.08, "pvar-atomic": 0.4, "pvar-names-or-md": 0.08, "blocks>=2-of-size>=2": 0.25,
-            "secondary-permuted": 0.4, "excluded-rows-and-secondary-equations": 0.05}
+            "secondary-permuted": 0.4, "excluded-rows-and-secondary-equations": 0.05, "expand-twice": 0.8,
+            "expand-twice-same": 0.3, "expand-other-vector": 0.5}
 
 
 def strategy(tier):
@@ -145,6 +150,7 @@ def check(spec):
         with np.errstate(all="ignore"):
             S, rhs = es.assemble_schur_complement_system(Y.peq, list(Y.pvar), **kw)
         Sd = S.toarray() if hasattr(S, "toarray") else np.asarray(S)
+        rhs_S_obj = rhs
         rhs = np.asarray(rhs, dtype=float).ravel()
         require(Sd.shape == (pd.size, pd.size) and rhs.shape == (pd.size,), "schur-shape",
                 f"reduced system {Sd.shape}, rhs {rhs.shape}; expected {pd.size} primary unknowns")
@@ -153,8 +159,30 @@ def check(spec):
             x_p = np.linalg.solve(Sd, rhs)
         except np.linalg.LinAlgError as e:
             raise Violation("schur-singular", f"reduced system singular (inverter={which}); reference cond(S)={c_S:.2e}") from e
-        x = np.asarray(es.expand_schur_complement_solution(x_p), dtype=float).ravel()
+        S_copy, rhs_copy = Sd.copy(), rhs.copy()
+        x = np.asarray(es.expand_schur_complement_solution(x_p.copy()), dtype=float).ravel()
         require(x.shape == (n,), "expanded-shape", f"{x.shape} vs {(n,)}")
         require_close(x, x_full, "solution-" + which, rtol=tol, atol=1e-12,
                       what=f"expanded Schur solution (inverter={which}) vs direct solve of the full system")
+        # every further expansion of the same assembled system must be exact as well
+        for j, re_ in enumerate(spec["reexpand"]):
+            if re_["kind"] == "same":
+                y_p, ref = x_p.copy(), x_full
+                labels.add("expand-twice-same")
+            else:
+                g = np.random.default_rng(re_["seed"] * 7919 + j)
+                y_p = re_["scale"] * x_p + g.uniform(-1.0, 1.0, x_p.size) * (1.0 + np.max(np.abs(x_p)))
+                ref = np.zeros(n)
+                ref[pd] = y_p
+                ref[sd] = np.linalg.solve(A_ss, b[sr] - A[np.ix_(sr, pd)] @ y_p)
+                labels.add("expand-other-vector")
+            labels.add("expand-twice")
+            xx = np.asarray(es.expand_schur_complement_solution(y_p.copy()), dtype=float).ravel()
+            require(xx.shape == (n,), "expanded-shape", f"{xx.shape} vs {(n,)}")
+            require_close(xx, ref, f"re-expansion-{re_['kind']}-" + which, rtol=max(tol, 1e-13 * c_ss), atol=1e-12,
+                          what=f"expansion #{j + 2} of the same assembled Schur system ({re_['kind']} reduced vector, "
+                               f"inverter={which}) vs [x_p, A_ss^-1 (b_s - A_sp x_p)] of the mirror system")
+        S_now = S.toarray() if hasattr(S, "toarray") else np.asarray(S)
+        require(np.array_equal(S_now, S_copy) and np.array_equal(np.asarray(rhs_S_obj, dtype=float).ravel(), rhs_copy),
+                "expansion-changed-reduced-system", "the returned reduced system was modified by an expansion")
     return {"labels": sorted(labels), "nontrivial": bool(nontrivial)}
